@@ -40,11 +40,15 @@ def opHash (a : OpObj) : Int := a.id
 /-- `ScheduledOperation.__eq__` -/
 def sopEq (a b : SOpObj) : Bool := opEq a.op b.op && a.start == b.start && a.machine == b.machine
 
-/-- `Schedule.__eq__`: `self.schedule == value.schedule` -/
-def schedEq (a b : List (List SOpObj)) : Bool := listEq (listEq sopEq) a b
-
 /-- `JobShopInstance.__eq__`: `self.jobs == other.jobs` -/
 def instEq (a b : List (List OpObj)) : Bool := listEq (listEq opEq) a b
+
+/-- a `Schedule` object: the instance it belongs to and its per-machine lists -/
+abbrev SchedObj := List (List OpObj) × List (List SOpObj)
+
+/-- `Schedule.__eq__`: `self.instance == value.instance and self.schedule == value.schedule` (since the repair that made partial
+schedules of different instances unequal) -/
+def schedEq (a b : SchedObj) : Bool := instEq a.1 b.1 && listEq (listEq sopEq) a.2 b.2
 
 /-- the operation objects of an instance, as `JobShopInstance.__init__` leaves them -/
 def opObjs (I : Instance) : List (List OpObj) :=
